@@ -45,3 +45,40 @@ Example c07_final_only_witness_runs :
   fo_show (stream_run fo_c fo_w fo_ps 12 (filter (fun b => bnum b <? 12) fo_canon) [])
   = ([(SNewIrr, 5); (SNewIrr, 6); (SNewIrr, 7); (SNewIrr, 8); (SNewIrr, 9); (SNewIrr, 10)], JNil).
 Proof. vm_compute. split; reflexivity. Qed.
+
+(* ------------------------------------------------------------------ from a cursor ahead of the hub's LIB *)
+
+Definition fc_canon : list block := map fo_b [2;3;4;5;6;7;8;9;10;11;12;13;14;15;16].
+Definition fc_cu : cursor := mkCursor SIrr (mkR 12 12) (mkR 12 12) (mkR 12 12).
+Definition fc_c : jcfg := mkJ 2 5 10 1 0 (Some fc_cu) 0 1 0.
+Definition fc_l : list (block * pass) := map (fun n => (fo_b n, PBlocks [])) [8;9;10;11;12;13;14].
+Definition fc_w : world := mkW (hub_run 2 5 hub_init fc_l) (map fo_b [15;16]).
+
+From BV Require Import Spec.C07_Final_Spec.
+
+Lemma c07_final_cursor_refuted_proof : C07_final_cursor_refuted.
+Proof.
+  exists fc_canon, fc_c, fc_w, [], 12, fc_canon, [], fc_cu, (fo_b 12).
+  split; [vm_compute; reflexivity|]. split; [vm_compute; reflexivity|].
+  split.
+  { split.
+    - exists fc_l. split; [|reflexivity]. intros b p Hin. unfold fc_l in Hin. apply in_map_iff in Hin as (n & E & Hn). injection E as <- <-.
+      split; [|intros x []]. vm_compute in Hn. repeat (destruct Hn as [<-|Hn]; [vm_compute; tauto|]). destruct Hn.
+    - intros b Hb. vm_compute in Hb. vm_compute. tauto. }
+  split.
+  { split.
+    - vm_compute. repeat split.
+    - apply (NoDup_map_inv (fun x => x)). rewrite map_id. vm_compute.
+      repeat (constructor; [cbn; intros K; repeat (destruct K as [K|K]; [discriminate|]); exact K|]). constructor. }
+  split; [intros b Hb; exact Hb|].
+  split; [apply eventual_tip_b_sound; vm_compute; reflexivity|].
+  split; [reflexivity|]. split; [reflexivity|]. split; [reflexivity|]. split; [reflexivity|]. split; [reflexivity|].
+  split; [reflexivity|]. split; [vm_compute; tauto|]. split; [reflexivity|]. split; [reflexivity|].
+  cbv zeta. split; [vm_compute; reflexivity|]. split; [vm_compute; reflexivity|].
+  eexists. split; [vm_compute; left; reflexivity | vm_compute; discriminate].
+Qed.
+
+Example c07_final_cursor_witness_run :
+  fo_show (stream_run fc_c fc_w [] 12 (filter (fun b => bnum b <? 12) fc_canon) [])
+  = ([(SIrr, 11); (SIrr, 12)], JNil).
+Proof. vm_compute. reflexivity. Qed.
